@@ -11,7 +11,7 @@ from ..build import AnalysisBroken
 from ..lib_c09 import PInterp, Agg, as_obj, chain, mk_tokens, mk_hideset, strip_ids, PARAM, OTHER, cls_of
 from ..lib_c09x import (Desc, show, explore_expand, explore_subst, SubstPath, explore_subst_shared, explore_skip_arms, cut_new_token_flags,
                         creator_summaries, describe_flag, CREATORS, FRESH)
-from ..lib_c19 import run_table, describe_pair
+from ..lib_c19 import run_table, describe_pair, format_items
 
 PU = 'preprocess.c'
 TU = 'tokenize.c'
@@ -43,30 +43,22 @@ def run(P, rep, tier):
     part('R19.2', 'tokenize.c:tokenize', lambda: r_tokenize(P, rep))
     part('R19.2', 'preprocess.c:copy_token', lambda: r_copy(P, rep))
     part('R19.2', 'preprocess.c:expand_macro', lambda: r_expand(P, rep, protect))
+    part('R19.6', 'preprocess.c:expand_macro', lambda: r_invocation_white_space(P, rep))
     part('R19.2', 'preprocess.c:subst', lambda: r_subst(P, rep, protect))
     part('R19.2', 'preprocess.c:subst', lambda: r_subst_repeat(P, rep))
 
 
 # ---------------------------------------------------------------------- printer ---
 def _out_text(name, args):
-    """text written by one stdio call: str, ('tok', len, loc) or None"""
+    """what one stdio call writes: list of ('sep', text) / ('tok', len, loc) in output order, or None"""
     if name == 'fprintf' and len(args) >= 2 and isinstance(args[1], str):
-        fmt = args[1]
-        if '%' not in fmt:
-            return fmt
-        if fmt == '%.*s' and len(args) == 4:
-            return ('tok', args[2], args[3])
-        if fmt == '%s' and len(args) == 3 and isinstance(args[2], str):
-            return args[2]
-        if fmt == '%c' and len(args) == 3 and isinstance(args[2], int):
-            return chr(args[2])
-        return None
+        return format_items(args[1], args[2:])
     if name in ('fputs',) and args and isinstance(args[0], str):
-        return args[0]
+        return [('sep', args[0])]
     if name in ('fputc', 'putc') and args and isinstance(args[0], int):
-        return chr(args[0])
+        return [('sep', chr(args[0]))]
     if name == 'fwrite' and len(args) == 4:
-        return ('tok', args[2] if args[1] == 1 else args[1], args[0])
+        return [('tok', args[2] if args[1] == 1 else args[1], args[0])]
     return None
 
 
@@ -90,6 +82,10 @@ def r_printer(P, rep):
                     todo.append(g)
     helpers = sorted(set(g for g in reach if g not in u.functions or any(m.kind == 'MemberExpr' and m.name == 'loc' for m in u.fn(g).walk())) | {'open_file'})
     it = PInterp(P, u, {'opaque': helpers, 'cut': {k: None for k in outs}, 'loop_limit': 2, 'track_stores': True})
+    # predicates over a PAIR of tokens (two or more Token * parameters, and they read spellings): what the printer asks before it glues
+    pairh = sorted(h for h in helpers if h in u.functions and sum(1 for q in u.params(h) if (q.type or '').replace(' ', '') == 'Token*') >= 2)
+    rep.rule('R19.5', 'print_tokens consults its pair predicate about the right pair: whenever it asks a two-token predicate (may_fuse) about the token it is about to write, the other token of the question is the token whose spelling was written immediately before - at every position (first, second, later token of the output or of a line, after a spaced token) - and a token that carries neither at_bol nor has_space is written directly after its predecessor only on a path on which that question was asked', floor=2)
+    npair = {'asked': 0, 'glued': 0}
 
     def mk(ctx):
         ctx.tok = Obj('Token', lazy=True, label='tok')
@@ -108,14 +104,17 @@ def r_printer(P, rep):
         i = 0
         bad = False
         evs = [e for e in ctx.events if e[0] == 'call' and e[1] in outs]
+        items = []
         for e in evs:
             t = _out_text(e[1], e[2])
             if t is None:
                 rep.undecided('R19.1', '%s:%s:output-call' % (MU, fn), 'output call %s%r not understood' % (e[1], tuple(e[2][1:])), where='%s:%d' % (MU, e[3]))
                 bad = True
                 break
-            if isinstance(t, str):
-                pending.append(t)
+            items += [(x, e) for x in t]
+        for t, e in ([] if bad else items):
+            if t[0] == 'sep':
+                pending.append(t[1])
                 continue
             if i >= len(toks):
                 rep.undecided('R19.1', '%s:%s:token-order' % (MU, fn), 'more spellings written than tokens visited', where=where)
@@ -146,6 +145,24 @@ def r_printer(P, rep):
                     A.ob('R19.1', '%s:%s:space-before-spaced-token' % (MU, fn), okk,
                          'a token preceded by white space in the source (has_space%s) is written directly after the previous token: `a + ++b` becomes `a +++b`' % ('' if isinstance(hs, int) else ' not even consulted'),
                          where, facts)
+            if pairh:
+                # R19.5: every question a pair predicate is asked about this token names the token written just before it
+                asked_T = [c for c in ctx.events if c[0] == 'call' and c[1] in pairh and any(as_obj(it, a) is T for a in c[2])
+                           and not any(as_obj(it, a) is x for a in c[2] for x in toks[i + 1:])]
+                # (a question that also names a LATER token is asked when that one is written)
+                for c in asked_T:
+                    others = [as_obj(it, a) for a in c[2] if as_obj(it, a) is not T and (isinstance(as_obj(it, a), Obj) and as_obj(it, a).tname == 'Token' or isinstance(it.settle(a), int))]
+                    npair['asked'] += 1
+                    okp = i > 0 and bool(others) and all(o is toks[i - 1] for o in others)
+                    A.ob('R19.5', '%s:%s:pair-predicate-is-asked-about-the-token-written-before' % (MU, fn), okp,
+                         '%s() is asked about token %d of the output together with %s instead of token %d, the one written immediately before it: the decision to keep the two apart is taken for another pair (a stale or skipped predecessor - e.g. the first token of a line, a spaced token or the first token of the output is never remembered), so `-` at the beginning of a line followed by a macro that expands to `-i` is printed `--i`' % (
+                             c[1], i, ', '.join(strip_ids(getattr(o, 'label', None) or repr(o)) for o in others) or 'no other token', i - 1), '%s:%d' % (MU, c[3]), facts)
+                if i > 0 and isinstance(ab, int) and ab == 0 and isinstance(hs, int) and hs == 0 and not sep:
+                    npair['glued'] += 1
+                    A.ob('R19.5', '%s:%s:unflagged-token-glued-only-after-the-pair-predicate-was-asked' % (MU, fn),
+                         any(any(as_obj(it, a) is toks[i - 1] for a in c[2]) for c in asked_T),
+                         'token %d of the output has neither at_bol nor has_space and is written directly after token %d on a path on which %s was not asked about these two tokens (%s): at the seam of a macro expansion the two spellings fuse (`-` `-i` -> `--i`)' % (
+                             i, i - 1, '/'.join(pairh), 'it was asked about another predecessor' if asked_T else 'no question was asked, e.g. because the remembered predecessor is still NULL'), where, facts)
             if i > 0 and isinstance(ab, int) and ab == 0 and isinstance(hs, int) and hs == 0 and sep:
                 # the printer separates tokens for a reason other than their own flags: it counts as protection of expansion
                 # boundaries when the reason is a question asked about this token AND its predecessor (their spellings)
@@ -163,6 +180,14 @@ def r_printer(P, rep):
     for k, v in nseen.items():
         if v == 0:
             rep.undecided('R19.1', '%s:%s:no-%s-case' % (MU, fn, k), 'no explored path of print_tokens exercises the %s case' % k, where=where)
+    if not pairh:
+        # the printer asks no two-token predicate (it looks at flags only, or decides inline): R19.3 / R19.4 speak about that
+        for k in ('pair-predicate-is-asked-about-the-token-written-before', 'unflagged-token-glued-only-after-the-pair-predicate-was-asked'):
+            rep.ob('R19.5', '%s:%s:%s' % (MU, fn, k), True, '', where=where, facts={'pair predicates': 'none (decided by R19.3/R19.4)'})
+    else:
+        for k, v in npair.items():
+            if v == 0:
+                rep.undecided('R19.5', '%s:%s:no-%s-case' % (MU, fn, k), 'print_tokens calls the pair predicate(s) %s but no explored path shows the "%s" case' % ('/'.join(pairh), k), where=where)
     return protect
 
 
@@ -596,6 +621,41 @@ def r_expand(P, rep, protect):
                 oks.append(d[0] == 'call' and d[1] in ('new_num_token', 'new_str_token'))
         rep.ob('R19.2', '%s:%s:handler-returns-fresh-token' % (PU, h), bool(oks) and all(oks),
                'the dynamic macro handler %s does not return a new_num_token/new_str_token token' % h, where='%s:%d' % (PU, u.fn(h).line))
+
+
+def r_invocation_white_space(P, rep):
+    """whose white space an expansion takes, what it leaves in the tokens around the invocation, and that every token the
+    preprocessor merely passes on, collects into an argument, copies or splices keeps the flag it was read with: the clauses
+    of C09's R09.15 / R09.18 are clauses of the -E text too (print_tokens writes exactly these flags)"""
+    from ..report import Report, reissue
+    from . import c09
+    u = P.unit(PU)
+    rep.rule('R19.6', 'the white space -E writes is the white space of the source wherever macro replacement does not define another: the token an expansion hands back takes has_space of the macro NAME (not of the closing parenthesis or another token of the invocation); no other token of the replacement, of the invocation or after it has its has_space rewritten; when the invocation expands to nothing the token after it is given has_space exactly when the name was preceded by white space (or began a line) and its at_bol is never written; tokens passed through preprocess2, collected by read_macro_arg_one, copied by subst (other than the first token standing for a parameter) and spliced by append keep the flag they were read with', floor=12)
+    where = '%s:%d' % (PU, u.fn('expand_macro').line) if 'expand_macro' in u.functions else None
+    sub = Report('C09', rep.tier, rep.seed)
+
+    def on_expand(name):
+        f = getattr(c09, name, None)
+        if f is None:
+            raise AnalysisBroken('the rule function %s of C09 is no longer available' % name)
+        it, paths = explore_expand(P, u, with_empty=True)
+        f(P, u, sub, it, paths)
+
+    def plain(name):
+        f = getattr(c09, name, None)
+        if f is None:
+            raise AnalysisBroken('the rule function %s of C09 is no longer available' % name)
+        f(P, u, sub)
+    for name, call in (('_only_first_token_stamped', on_expand), ('_splice_flags', on_expand), ('_stream_keeps_has_space', plain),
+                       ('_copies_keep_has_space', plain), ('r_arg_one', plain), ('r_hideset_prims', plain)):
+        try:
+            call(name)
+        except AnalysisBroken as e:
+            rep.undecided('R19.6', '%s:white-space-kept:%s' % (PU, name.strip('_').replace('_', '-')), 'analysis could not proceed: %s' % e, where=where)
+    why = 'the -E output is written from these flags: the white space of the printed text differs from the white space the program wrote (`a NOTHING()+ b` is printed `a+ b`, and # spells it so): '
+    n = reissue(rep, 'R19.6', sub, why, keep=lambda o: o['key'].split(':', 1)[0] in ('R09.15', 'R09.18'))
+    if n == 0:
+        rep.undecided('R19.6', '%s:expand_macro:no-obligation' % PU, 'the rules on the flags around an invocation produced no obligation', where=where)
 
 
 # ------------------------------------------------------------------------ subst ---
